@@ -59,7 +59,23 @@ def check_operators():
 VR = {"vr4": ("VRegion4", "V4", 4, "__m256i"), "vr8": ("VRegion8", "V8", 8, "__m512i")}
 
 
-def lean_dispatch_entry(info, ns, vregs=None, ext=False, opname=None):
+def scalar_alias_candidates(info):
+    """[(k, o)]: parameter k is a field element passed BY VALUE / const reference (cat u64, mode in) and parameter o < k is the
+    result array (pointer, mode out/inout).  For these the dispatchers get a variant `<op>__as<k>` in which the scalar argument
+    is the ELEMENT j OF THE RESULT ARRAY itself (the wire carries j): `f(out, out[j], …)`.  The specification is the call by
+    value: the scalar designated at the call is the value out[j] had before the call."""
+    cps = [c for c in info.decl.get("inner", []) if c.get("kind") == "ParmVarDecl"]
+    outs = [i for i, q in enumerate(info.params) if q["cat"] == "ptr" and q["mode"] in ("out", "inout")]
+    res = []
+    for k, (q, pd) in enumerate(zip(info.params, cps)):
+        if q["cat"] == "u64" and q["mode"] == "in" and "Element" in pd["type"]["qualType"] and "*" not in pd["type"]["qualType"]:
+            o = [i for i in outs if i < k]
+            if o:
+                res.append((k, o[0]))
+    return res
+
+
+def lean_dispatch_entry(info, ns, vregs=None, ext=False, opname=None, alias=None):
     """one match arm for Driver/GenDispatch.lean, or None when the signature is not dispatchable.
     vregs: number of registers a vector-region parameter (`__m256i *`, `Element_avx &`) designates in this module
     (3 for the planar cubic-extension operands): passed as vregs * lanes words, register 0 first.
@@ -67,10 +83,19 @@ def lean_dispatch_entry(info, ns, vregs=None, ext=False, opname=None):
     opname = opname or info.lean_name
     pats, args = [], []
     k = 0
-    for p in info.params:
+    xnum = {}
+    for pi, p in enumerate(info.params):
         if p["mode"] == "out":
             continue
         c = p["cat"]
+        xnum[pi] = k
+        if alias and pi == alias[0]:
+            if alias[1] not in xnum or info.params[alias[1]]["mode"] == "out":
+                return None
+            pats.append(".w x%d" % k)
+            args.append("(Driver.aliasW (Driver.rD a %d) x%d)" % (xnum[alias[1]], k))
+            k += 1
+            continue
         if c in VR and vregs == 3:
             rt, vt, w, _ = VR[c]
             regs = []
@@ -195,7 +220,8 @@ def lean_dispatch_entry(info, ns, vregs=None, ext=False, opname=None):
             outs.append("(Region.toList %s %s)" % (pr, region_lens[nm]))
         else:
             return None
-    if len(pats) > 32 or vregs:
+    if len(pats) > 32 or vregs or alias:
+        # (scalar-alias variants too: the list-pattern matcher is at its size limit)
         # modules with vector-region parameters / long argument lists (three-register operands passed lane by lane): no list pattern (the match compiler does
         # not scale), the arguments are read from an array after a check of their kinds
         kinds = "".join("w" if q.startswith(".w") else "r" for q in pats)
@@ -222,7 +248,7 @@ def cpp_fn_pointer_type(fty):
     return "%s (*)%s" % (ret, params)
 
 
-def cpp_dispatch_entry(info, vregs=None, ext=False, opname=None):
+def cpp_dispatch_entry(info, vregs=None, ext=False, opname=None, alias=None):
     opname = opname or info.lean_name
     d = info.decl
     cls = d.get("_class")
@@ -242,7 +268,11 @@ def cpp_dispatch_entry(info, vregs=None, ext=False, opname=None):
         c = p["cat"]
         v = "a%d" % idx
         mode = p["mode"]
-        if c == "u64":
+        if alias and idx == alias[0]:
+            # the scalar argument IS element j of the result array (by value: copied at the call; by reference: aliased)
+            lines.append("    uint64_t %s_j = A.w(); if (%s_j >= a%d.n) { A.bad = true; return true; }" % (v, v, alias[1]))
+            call_args.append("((Goldilocks::Element*)a%d.p)[%s_j]" % (alias[1], v))
+        elif c == "u64":
             isel = "Element" in pd["type"]["qualType"]
             if mode == "out":
                 if isel:
@@ -535,6 +565,17 @@ def main():
                     else:
                         lean_arms.append(la)
                     cpp_arms.append(ca)
+                    if m.get("scalar_alias") and not isinstance(la, tuple):
+                        for (ak, ao) in scalar_alias_candidates(info):
+                            on2 = "%s__as%d" % (opname, ak)
+                            la2 = lean_dispatch_entry(info, m["ns"], m.get("vregion_regs"), False, on2, alias=(ak, ao))
+                            ca2 = cpp_dispatch_entry(info, m.get("vregion_regs"), False, on2, alias=(ak, ao)) if la2 else None
+                            if la2 and ca2 and isinstance(la2, tuple) and la2[0] == "long":
+                                lean_long_arms.append(la2[1])
+                                cpp_arms.append(ca2)
+                                new_ref[info.lean_name].setdefault("alias_arms", []).append(ca2)
+                                if isinstance(st.get("sigs"), dict) and info.lean_name in st["sigs"]:
+                                    st["sigs"][info.lean_name].setdefault("scalar_alias", []).append([ak, ao, info.params[ak]["name"], info.params[ao]["name"]])
         status["modules"][name] = st
     tr_cxx.MPZ_MODE = False
     for modname, lname, fty in failed_roots:
